@@ -602,7 +602,7 @@ class TrenchColumn:
             return None
 
         # a single surviving block is a Polygon, several are a MultiPolygon; number them by their lowest y
-        blocks = getattr(trench_blocks, 'geoms', [trench_blocks])
+        blocks = [b for b in getattr(trench_blocks, 'geoms', [trench_blocks]) if not b.is_empty]
         for block in sorted(blocks, key=lambda b: b.bounds[1]):
             # buffer to round corners
             block = block.buffer(self.round_corner, resolution=256, cap_style=1)
